@@ -238,6 +238,8 @@ Definition hosts_of (flat : list Z) : list addr :=
   normalize_hosts_z (map (fun hp => HTuple (fst hp) (snd hp)) (chunk2 flat)).
 
 (* ---- the history machine --------------------------------------------------------------------------- *)
+(* after every operation during which the environment called close(), the deferred reset_all_metadata() of
+   close() (client.py:391) is applied: ClientMeta.close_finish *)
 Definition opt_group (g : Z) : option Z := if g <? 0 then None else Some g.
 
 Fixpoint run_ops (fuel : nat) (st : state) (univ : Z) (l : list Z) : list Z :=
@@ -251,7 +253,8 @@ Fixpoint run_ops (fuel : nat) (st : state) (univ : Z) (l : list Z) : list Z :=
           | Some (u, l2) =>
               match parse_rawresp l2 with
               | Some (r, l3) =>
-                  let '(st1, log, gone, res) := load_metadata st (full =? 1) u r in
+                  let '(st1', log, gone, res) := load_metadata st (full =? 1) u r in
+                  let st1 := close_finish st st1' in
                   [-7; 1] ++ emit_log log ++ [lres_code res] ++ zlp (zisort gone) ++ dump st1 univ
                   ++ run_ops fuel' st1 univ l3
               | None => [-99] end
@@ -259,7 +262,8 @@ Fixpoint run_ops (fuel : nat) (st : state) (univ : Z) (l : list Z) : list Z :=
       | 2 :: g :: l1 =>
           match parse_uscript l1 with
           | Some (u, err :: node :: h :: p :: l2) =>
-              let '(st1, log, ok) := load_coordinator st g u (err, (node, (h, p))) in
+              let '(st1', log, ok) := load_coordinator st g u (err, (node, (h, p))) in
+              let st1 := close_finish st st1' in
               [-7; 2] ++ emit_log log ++ [if ok then 1 else 0] ++ dump st1 univ ++ run_ops fuel' st1 univ l2
           | _ => [-99] end
       | 3 :: via :: g :: fail :: expect :: l1 =>
@@ -271,9 +275,10 @@ Fixpoint run_ops (fuel : nat) (st : state) (univ : Z) (l : list Z) : list Z :=
                   | Some (outsh, l4) =>
                       let outs := map fst outsh in
                       let ps := map payload_of3 (chunk3 pl) in
-                      let '(ar, st1, res) :=
+                      let '(ar, st1', res) :=
                         if via =? 1 then send_public st (opt_group g) (fail =? 1) (expect =? 1) ps loads outs
                         else send_direct st (opt_group g) (expect =? 1) ps loads outs in
+                      let st1 := close_finish st st1' in
                       [-7; 3] ++ emit_aresult ar (map snd outsh) ++ emit_pres res ++ dump st1 univ ++ run_ops fuel' st1 univ l4
                   | None => [-99] end
               | None => [-99] end
@@ -301,7 +306,8 @@ Fixpoint run_ops (fuel : nat) (st : state) (univ : Z) (l : list Z) : list Z :=
           | Some (loads, l2) =>
               match parse_out l2 with
               | Some (o, h, l3) =>
-                  let '(ar, st1, res) := send_coord st g {| p_topic := -1; p_part := -1; p_tag := tag |} loads o in
+                  let '(ar, st1', res) := send_coord st g {| p_topic := -1; p_part := -1; p_tag := tag |} loads o in
+                  let st1 := close_finish st st1' in
                   [-7; 10] ++ emit_aresult ar [h] ++ emit_pres res ++ dump st1 univ ++ run_ops fuel' st1 univ l3
               | None => [-99] end
           | None => [-99] end
